@@ -13,6 +13,7 @@ use std::path::PathBuf;
 
 thread_local! {
     static LAST_PANIC: RefCell<Option<String>> = const { RefCell::new(None) };
+    static GUARD_DEPTH: std::cell::Cell<u32> = const { std::cell::Cell::new(0) };
 }
 
 /// Silence the default panic printer and remember the message instead.
@@ -26,6 +27,10 @@ pub fn install_panic_hook() {
             "<non-string panic>".to_string()
         };
         let loc = info.location().map(|l| format!(" @ {}:{}", l.file(), l.line())).unwrap_or_default();
+        if GUARD_DEPTH.with(std::cell::Cell::get) == 0 {
+            // a panic of the harness itself: never swallow it
+            eprintln!("HARNESS PANIC: {msg}{loc}");
+        }
         LAST_PANIC.with(|p| *p.borrow_mut() = Some(format!("{msg}{loc}")));
     }));
 }
@@ -33,7 +38,10 @@ pub fn install_panic_hook() {
 /// Run `f`, returning Err(panic message) if it panicked.
 pub fn guarded<T>(f: impl FnOnce() -> T) -> Result<T, String> {
     LAST_PANIC.with(|p| *p.borrow_mut() = None);
-    match catch_unwind(AssertUnwindSafe(f)) {
+    GUARD_DEPTH.with(|d| d.set(d.get() + 1));
+    let r = catch_unwind(AssertUnwindSafe(f));
+    GUARD_DEPTH.with(|d| d.set(d.get() - 1));
+    match r {
         Ok(v) => Ok(v),
         Err(_) => Err(LAST_PANIC.with(|p| p.borrow_mut().take()).unwrap_or_else(|| "<panic>".to_string())),
     }
@@ -479,4 +487,78 @@ pub fn snap_anomalies(s: &sodg::VerifSnapshot) -> Vec<String> {
         }
     }
     out
+}
+
+/// Execute an op on a bare graph (a twin), outside any session; Err = panic message.
+/// Slice returns the digest of the slice so that twins can be compared.
+pub fn exec_raw(
+    g: &mut Box<dyn Graph>,
+    op: &Op,
+    work: &std::path::Path,
+    uniq: &mut u64,
+    labels: &[Label],
+) -> Result<Ret, String> {
+    let n = g.n();
+    guarded(|| match op {
+        Op::Add(v) => {
+            g.add(*v);
+            Ret::Unit
+        }
+        Op::Bind(a, b, l) => {
+            g.bind(*a, *b, *l);
+            Ret::Unit
+        }
+        Op::Put(v, d) => {
+            g.put(*v, &d.to_hex());
+            Ret::Unit
+        }
+        Op::Data(v) => Ret::Data(g.data(*v).map(|h| h.bytes().to_vec())),
+        Op::Kid(v, l) => Ret::Kid(g.kid(*v, *l)),
+        Op::Kids(v) => Ret::Kids(g.kids(*v)),
+        Op::NextId => Ret::Id(g.next_id()),
+        Op::Clone { swap } => {
+            let c = g.clone_box();
+            if *swap {
+                *g = c;
+            }
+            Ret::Unit
+        }
+        Op::SaveLoad { swap } => {
+            *uniq += 1;
+            let path = work.join(format!("tw-{}-{}.sodg", std::process::id(), *uniq));
+            let r = g.save(&path).and_then(|_| load_graph(n, &path));
+            let _ = std::fs::remove_file(&path);
+            match r {
+                Ok(l) => {
+                    if *swap {
+                        *g = l;
+                    }
+                    Ret::Res(Ok(String::new()))
+                }
+                Err(e) => Ret::Res(Err(e)),
+            }
+        }
+        Op::Slice(v) => match g.slice(*v) {
+            Ok(s) => Ret::Res(Ok(digest(s.as_ref(), O_KEYS | O_EDGES, labels))),
+            Err(e) => Ret::Res(Err(e)),
+        },
+        Op::Merge { h, left, right } => {
+            let cap = g.snapshot().capacity;
+            let mut hg = new_graph(n, cap);
+            for hop in h {
+                match hop {
+                    Op::Add(v) => hg.add(*v),
+                    Op::Bind(a, b, l) => hg.bind(*a, *b, *l),
+                    Op::Put(v, d) => hg.put(*v, &d.to_hex()),
+                    _ => {}
+                }
+            }
+            Ret::Res(g.merge(hg.as_ref(), *left, *right).map(|()| String::new()))
+        }
+        Op::Script { text, .. } => {
+            let mut s = Script::from_str(text);
+            Ret::Res(g.deploy(&mut s).map(|c| c.to_string()))
+        }
+        Op::Export => Ret::Texts(texts(g.as_ref())),
+    })
 }
